@@ -225,10 +225,13 @@ def _sink_temp_copies(fn: ast.AST) -> None:
     def retarget(block, t, x) -> None:
         last = block[-1]
         if isinstance(last, ast.Assign):
-            if isinstance(last.value, ast.Name) and last.value.id == x:
-                block[-1] = ast.copy_location(ast.Pass(), last)
+            if isinstance(x, str):
+                if isinstance(last.value, ast.Name) and last.value.id == x:
+                    block[-1] = ast.copy_location(ast.Pass(), last)
+                else:
+                    last.targets = [ast.Name(id=x, ctx=ast.Store())]
             else:
-                last.targets = [ast.Name(id=x, ctx=ast.Store())]
+                last.targets = [copy.deepcopy(x)]        # a tuple pattern: `a, self.b = <what the branch produced>`
             return
         retarget(last.body, t, x)
         retarget(last.orelse, t, x)
@@ -240,6 +243,13 @@ def _sink_temp_copies(fn: ast.AST) -> None:
             if k >= 1 and isinstance(st, ast.Assign) and len(st.targets) == 1 and isinstance(st.targets[0], ast.Name) and isinstance(st.value, ast.Name) \
                     and st.value.id.startswith("__inl") and loads.get(st.value.id) == 1 and isinstance(block[k - 1], ast.If) and ends_with_store([block[k - 1]], st.value.id):
                 retarget([block[k - 1]], st.value.id, st.targets[0].id)
+                del block[k]
+                continue
+            # the same for a result that is unpacked: `if c: t = (a, b) else: t = (u, v)` then `x, self.y = t`
+            if k >= 1 and isinstance(st, ast.Assign) and len(st.targets) == 1 and isinstance(st.targets[0], (ast.Tuple, ast.List)) and isinstance(st.value, ast.Name) \
+                    and st.value.id.startswith("__inl") and loads.get(st.value.id) == 1 and isinstance(block[k - 1], ast.If) and ends_with_store([block[k - 1]], st.value.id) \
+                    and all(isinstance(e, ast.Name) or (isinstance(e, ast.Attribute) and isinstance(e.value, ast.Name)) for e in st.targets[0].elts):
+                retarget([block[k - 1]], st.value.id, st.targets[0])
                 del block[k]
                 continue
             for fld in ("body", "orelse", "finalbody"):
